@@ -147,6 +147,58 @@ def regrouped(mid: int, d: bytes, g: int, tsi: int) -> bool:
     return ok
 
 
+TINY = (7, 8, 9, 10, 13, 16)
+TINY_MIDS = (0, 255, 256, 65535)
+
+
+@cond(bounds='very small maximum PDU lengths: a C-STORE-RQ (116-octet command set, 6-octet data set; message id from {0, 255, 256, '
+             '65535}) or a C-ECHO-RQ fragmented for a peer maximum from {7, 8, 9, 10, 13, 16} (1..10 payload octets per '
+             'fragment: the COMMAND SET alone becomes 12..116 fragments) and delivered one fragment per PDU, all in one PDU, '
+             'or in PDUs of 2 / 3 / 17 fragments - all by symbolic selectors (everything else concrete: runs outside the '
+             'tracer): the message is rebuilt exactly, complete exactly at the last fragment', timeout=300)
+def tiny_fragments(mi: int, gi: int, idi: int, echo: bool) -> bool:
+    """
+    pre: 0 <= mi <= 5 and 0 <= gi <= 4 and 0 <= idi <= 3
+    post: _
+    """
+    from vt import sim
+    M = TINY[pick(mi, 0, 5)]
+    per = (1, 0, 2, 3, 17)[pick(gi, 0, 4)]
+    mid = TINY_MIDS[pick(idi, 0, 3)]
+    is_echo = bool(pick(int(echo), 0, 1))
+    with sim._no_tracing():
+        data = b'\x10\x00\x20\x00\x00\x00'
+        if is_echo:
+            msg, cid, data = _seq_message('echo', mid, None)
+        else:
+            msg, cid = store_rq(mid, data), 5
+        frags = list(msg.encode(cid, M))
+        n = len(frags)
+        pdus = []
+        step = n if per == 0 else per
+        for i in range(0, n, step):
+            pdus.append(pdu.PDataTfPDU([v for f in frags[i:i + step] for v in f.data_value_items]))
+        accepted = {5: asceprovider.PContextDef(5, pydicom.uid.UID(CT), pydicom.uid.UID(TS_LIST[0])),
+                    3: asceprovider.PContextDef(3, pydicom.uid.UID('1.2.840.10008.1.1'), pydicom.uid.UID(TS_LIST[0]))}
+        dec = fsm.DIMSEDecoder(accepted, frozenset(), None)
+        ok = all(len(f.encode()) <= M + 6 for f in frags)
+        try:
+            for i, p in enumerate(pdus):
+                ok = ok and dec.receiving
+                dec.process(pdu.PDataTfPDU.decode(p.encode()))
+                if i < len(pdus) - 1:
+                    ok = ok and dec.receiving
+        except Exception:                      # noqa: the decoder gave up on a conformant message
+            ok = False
+        ok = ok and not dec.receiving
+        if ok:
+            got = dec.msg
+            ok = type(got) is type(msg) and dec.pc_id == cid and cmd_equal(got.command_set, msg.command_set) \
+                and got.data_set == data
+    deep(ok and M == 7 and per == 17 and not is_echo)
+    return ok
+
+
 @cond(bounds='all 23 command-field codes: a message of each class (message id symbolic 0..65535, optional '
              'fields set/unset), without and with data set, in one or two P-DATA-TF PDUs, is reconstructed as the class '
              'PS3.7 assigns to its command field, with identical command set',
